@@ -89,6 +89,10 @@ def jobs(tier, seed):
     add('term-compact', 12, border=1)          # odd number of rows: the last half-block row is padded
     add('pbm', 21, plain=True)
     add('pbm', 11, scale=2, border=1, plain=True)
+    add('pbm', 11, scale=8, border=0)          # width a multiple of 8: no padding bits in a P4 row
+    add('pbm', 13, scale=8, border=1)
+    add('xbm', 11, scale=8, border=0)
+    add('png', 11, scale=8, border=0)
     add('png', 45)
     add('pbm', 45)
     # colours
@@ -113,6 +117,11 @@ def jobs(tier, seed):
     for v in (T.M2, 1, 7):
         add('png-colorful', T.size(v), 1, None, v=v, cost=40)
         add('ppm-colorful', T.size(v), 1, 1, v=v, cost=40)
+    # per-type options that reuse only the two basic colours (no third colour)
+    for only in (dict(separator='#000'), dict(quiet_zone='#000'), dict(finder_dark='#fff', finder_light='#000'), dict(data_dark='#fff', dark='#000')):
+        add('png-colorful', 21, 1, 1, v=1, cost=40, only=only)
+        add('ppm-colorful', 21, 1, 1, v=1, cost=40, only=only)
+    add('png-colorful', 13, 2, None, v=T.M2, cost=40, only=dict(timing_dark='#fff'))
     add('png-colorful', 21, 2, 0, v=1, cost=40, transparent=True)
     add('png-colorful', 21, 1, 1, v=1, cost=40, alpha=True)
     add('png-colorful', 21, 1, 0, v=1, cost=40, alpha=True, transparent=True)
@@ -167,6 +176,27 @@ COLORFUL = dict(dark='#102030', light='#f0f0f0', finder_dark='#800000', finder_l
                 alignment_light='#ffe0ff', timing_dark='#008080', timing_light='#e0ffff', separator='#c0c0c0', dark_module='#ff8000', quiet_zone='#fafafa')
 
 
+def colour_config(kw):
+    """full expected type -> colour configuration of a colourful case (options not given fall back to dark / light)"""
+    if 'only' in kw:
+        given = dict(kw['only'])
+        dark, light = given.get('dark', '#000'), given.get('light', '#fff')
+        cm = {}
+        for k in COLORFUL:
+            if k in ('dark', 'light'):
+                continue
+            cm[k] = given.get(k, dark if (k.endswith('_dark') or k == 'dark_module') else light)
+        cm['dark'], cm['light'] = dark, light
+        return cm
+    cm = dict(COLORFUL)
+    if kw.get('transparent'):
+        cm['light'] = None
+        cm['quiet_zone'] = None
+    if kw.get('alpha'):
+        cm['finder_dark'] = '#ff000080'
+    return cm
+
+
 def job_render(res, L_, spec):
     W = L_.writers
     fmt, n, scale, border = spec['fmt'], spec['n'], spec['scale'], spec['border']
@@ -178,12 +208,10 @@ def job_render(res, L_, spec):
         v = kw.pop('v')
         matrix, vars_, g = c11.symbol_with_free_bits(L_, v)
         vs = [[(vars_.get((r, c)) if (r, c) in vars_ else g[r][c][1]) for c in range(n)] for r in range(n)]
-        cm = dict(COLORFUL)
-        if kw.pop('transparent', False):
-            cm['light'] = None
-            cm['quiet_zone'] = None
-        if kw.pop('alpha', False):
-            cm['finder_dark'] = '#ff000080'
+        cm = colour_config(kw)
+        callcm = dict(kw.pop('only')) if 'only' in kw else None
+        kw.pop('transparent', None)
+        kw.pop('alpha', None)
         kw.update(cm)
     elif fmt == 'ppm-plain':
         # the PPM writer classifies modules by position (verbose iterator): it needs a valid symbol shape
@@ -198,6 +226,8 @@ def job_render(res, L_, spec):
     real = install_stubs(W, tokens)
     sink = Sink()
     callkw = dict(kw)
+    if colorful and 'only' in spec['kw']:
+        callkw = dict(spec['kw']['only'])
     if fmt not in ('txt', 'term-compact'):
         callkw['scale'] = scale
     callkw['border'] = border
@@ -1044,14 +1074,13 @@ def replay(viol):
     M = inp['matrix']
     matrix = tuple(bytearray(r) for r in M)
     colorful = fmt.endswith('-colorful')
+    only = None
     if colorful:
         kw.pop('v', None)
-        cm = dict(COLORFUL)
-        if kw.pop('transparent', False):
-            cm['light'] = None
-            cm['quiet_zone'] = None
-        if kw.pop('alpha', False):
-            cm['finder_dark'] = '#ff000080'
+        cm = colour_config(kw)
+        only = kw.pop('only', None)
+        kw.pop('transparent', None)
+        kw.pop('alpha', None)
         kw.update(cm)
     for k_ in ('dark', 'light'):
         if isinstance(kw.get(k_), list):
@@ -1062,7 +1091,7 @@ def replay(viol):
         if fmt == 'term-compact':
             W.write_terminal_compact(matrix, (n, n), out, border=border)
         else:
-            ckw = dict(kw)
+            ckw = dict(kw) if only is None else dict(only)
             if fmt != 'txt':
                 ckw['scale'] = scale
             W.save(matrix, (n, n), out, kind={'ppm-plain': 'ppm'}.get(fmt, fmt.replace('-colorful', '')), border=border, **ckw)
